@@ -26,6 +26,8 @@ pub enum QEv {
     Fail(P),
     IdlePeer,
     IdleQuery,
+    /// half a peer timeout passes (requests issued at different instants then time out one by one)
+    HalfPeer,
 }
 
 #[derive(Clone, Debug)]
@@ -37,6 +39,11 @@ pub struct QCfg {
     pub parallelism: usize,
     pub num_results: usize,
     pub max_report: usize,
+    /// time also advances in halves of the peer timeout
+    pub half_steps: bool,
+    /// narrow alphabet (answers report nothing, no initial peer satisfies the predicate, so the
+    /// lookup only ends by exhaustion), explored deeper
+    pub deep: bool,
 }
 
 struct Universe {
@@ -96,6 +103,10 @@ fn xor_ids(a: &NodeId, b: &NodeId) -> [u8; 32] {
     o
 }
 
+fn never_matches(_e: &Enr) -> bool {
+    false
+}
+
 fn record_predicate(e: &Enr) -> bool {
     e.udp4().map(|p| p % 2 == 0).unwrap_or(false)
 }
@@ -129,6 +140,8 @@ struct QWorld {
     timed_out: bool,
     started: Option<Instant>,
     counters: BTreeMap<&'static str, u64>,
+    /// the lookup reported its stalled mode before the poll being executed
+    stalled_before_poll: bool,
 }
 
 impl QWorld {
@@ -147,8 +160,8 @@ impl QWorld {
             };
             Subject::Pool(pool, id)
         } else if cfg.predicate {
-            let peers: Vec<PredicateKey<NodeId>> = cfg.initial.iter().map(|p| PredicateKey { key: Key::from(u.ids[*p as usize]), predicate_match: u.pred[*p as usize] }).collect();
-            Subject::Pred(v::VPredicateQuery::with_config(cfg.parallelism, cfg.num_results, PEER_TIMEOUT, tkey, peers, record_predicate))
+            let peers: Vec<PredicateKey<NodeId>> = cfg.initial.iter().map(|p| PredicateKey { key: Key::from(u.ids[*p as usize]), predicate_match: u.pred[*p as usize] && !cfg.deep }).collect();
+            Subject::Pred(v::VPredicateQuery::with_config(cfg.parallelism, cfg.num_results, PEER_TIMEOUT, tkey, peers, if cfg.deep { never_matches } else { record_predicate }))
         } else {
             let c = FindNodeQueryConfig { parallelism: cfg.parallelism, num_results: cfg.num_results, peer_timeout: PEER_TIMEOUT };
             Subject::Find(FindNodeQuery::with_config(c, tkey, cfg.initial.iter().map(|p| Key::from(u.ids[*p as usize]))))
@@ -156,7 +169,7 @@ impl QWorld {
         // constructor keeps the first `num_results` of the given candidates
         let known: BTreeSet<P> = cfg.initial.iter().take(cfg.num_results).copied().collect();
         let known_upper = known.clone();
-        QWorld { cfg: cfg.clone(), u, subj: Some(subj), t0: Instant::now(), issued: BTreeMap::new(), answered: BTreeSet::new(), succeeded: BTreeSet::new(), effective_successes: 0, known, known_upper, finished: None, timed_out: false, started: None, counters: BTreeMap::new() }
+        QWorld { cfg: cfg.clone(), u, subj: Some(subj), t0: Instant::now(), issued: BTreeMap::new(), answered: BTreeSet::new(), succeeded: BTreeSet::new(), effective_successes: 0, known, known_upper, finished: None, timed_out: false, started: None, counters: BTreeMap::new(), stalled_before_poll: false }
     }
 
     fn idx(&self, id: &NodeId) -> P {
@@ -193,7 +206,7 @@ impl QWorld {
                 }
             }
         }
-        if self.cfg.max_report >= 2 {
+        if self.cfg.max_report >= 2 || self.cfg.deep {
             // overshooting answers: more peers than any configured result count, nearest-first and
             // farthest-first (a multi-packet NODES answer is handed to the lookup as one list)
             let peers: Vec<P> = (0..n as P).collect();
@@ -208,6 +221,9 @@ impl QWorld {
         }
         if !self.in_flight(now).is_empty() {
             ev.push((QEv::IdlePeer, 0));
+            if self.cfg.half_steps {
+                ev.push((QEv::HalfPeer, 0));
+            }
         }
         if self.cfg.pool && self.started.is_some() {
             ev.push((QEv::IdleQuery, 0));
@@ -239,7 +255,7 @@ impl QWorld {
             if !self.succeeded.contains(p) {
                 return Err(self.violation("every returned node answered the lookup's request", "c10:result-unanswered", format!("peer {p} returned; issued={:?} succeeded={:?}", self.issued.keys().collect::<Vec<_>>(), self.succeeded)));
             }
-            if self.cfg.predicate && !self.u.pred[*p as usize] {
+            if self.cfg.predicate && (!self.u.pred[*p as usize] || self.cfg.deep) {
                 return Err(self.violation("a predicate lookup returns only nodes reported with a record satisfying the predicate", "c10:result-predicate", format!("peer {p}")));
             }
         }
@@ -267,6 +283,11 @@ impl QWorld {
             return Err(self.violation("harness", "issued-unknown", format!("peer {p}")));
         }
         let stalled_possible = self.effective_successes >= self.cfg.parallelism;
+        // once the lookup itself is in its stalled mode (its own report before this poll) the bound
+        // is the number of results wanted — the stricter one when that is below the parallelism
+        if self.stalled_before_poll && before >= self.cfg.num_results && before < self.cfg.parallelism {
+            return Err(self.violation("never more requests in flight than the parallelism (or, once stalled, than the number of results)", "parallelism-stalled", format!("stalled lookup issues to {p} with {before} in flight, k {}, parallelism {}", self.cfg.num_results, self.cfg.parallelism)));
+        }
         if before >= self.cfg.parallelism {
             if !(stalled_possible && before < self.cfg.num_results) {
                 return Err(self.violation("never more requests in flight than the parallelism (or, once stalled, than the number of results)", "parallelism", format!("issuing to {p} with {before} in flight, parallelism {}, k {}, successes so far {}", self.cfg.parallelism, self.cfg.num_results, self.effective_successes)));
@@ -282,6 +303,7 @@ impl QWorld {
         let obs;
         match ev {
             QEv::Poll => {
+                self.stalled_before_poll = self.snap().map(|s| s.progress == 254).unwrap_or(false);
                 let subj = self.subj.take().unwrap();
                 let (subj, r) = match subj {
                     Subject::Find(mut q) => {
@@ -408,6 +430,10 @@ impl QWorld {
                 clock::advance(PEER_TIMEOUT);
                 obs = "idle".into();
             }
+            QEv::HalfPeer => {
+                clock::advance(PEER_TIMEOUT / 2);
+                obs = "half".into();
+            }
             QEv::IdleQuery => {
                 // to the earliest instant at which the pool owes the cut-off, or a full period later
                 let now = Instant::now();
@@ -432,7 +458,7 @@ impl QWorld {
 
     fn fingerprint(&self) -> u128 {
         let now = Instant::now();
-        let inflight = self.in_flight(now);
+        let inflight: Vec<(P, u32)> = self.in_flight(now).into_iter().map(|p| (p, (now.saturating_duration_since(self.issued[&p]).as_millis() / (PEER_TIMEOUT.as_millis() / 2)) as u32)).collect();
         let elapsed_query = self.started.map(|s| now.saturating_duration_since(s) >= QUERY_TIMEOUT);
         mc::fp_of(&(
             self.snap(),
@@ -545,9 +571,16 @@ fn run_query(cfg: &QCfg, hist: &[QEv]) -> Outcome<QEv> {
 }
 
 pub fn debug_one() {
-    let cfg = QCfg { predicate: false, pool: false, n_peers: 4, initial: vec![0], parallelism: 1, num_results: 2, max_report: 2 };
-    let o = run_query(&cfg, &[QEv::Poll, QEv::Succ(0, vec![1, 2])]);
-    eprintln!("{:?}", o.violation);
+    let cfg = QCfg { predicate: true, pool: false, n_peers: 7, initial: vec![6], parallelism: 3, num_results: 1, max_report: 0, half_steps: true, deep: true };
+    let h = vec![QEv::Poll, QEv::Succ(6, vec![6, 5, 4, 3, 2, 1, 0]), QEv::Poll, QEv::Poll, QEv::Poll, QEv::Succ(0, vec![]), QEv::HalfPeer, QEv::Poll, QEv::Succ(1, vec![]), QEv::HalfPeer, QEv::Poll, QEv::Succ(2, vec![]), QEv::HalfPeer, QEv::Poll, QEv::Poll];
+    let mut w = QWorld::new(&cfg);
+    for e in &h {
+        let o = w.step(e);
+        eprintln!("{:?} -> {:?} snap {:?}", e, o.map_err(|v| (v.key, v.detail)), w.snap());
+        if w.finished.is_some() {
+            break;
+        }
+    }
 }
 
 pub fn run(prop: &str) {
@@ -560,7 +593,7 @@ pub fn run(prop: &str) {
     } else {
         vec![vec![0], vec![3], vec![0, 1], vec![3, 0], vec![1, 2, 3], vec![0, 1, 2, 3]]
     };
-    let pks: Vec<(usize, usize)> = if thorough { vec![(1, 1), (1, 2), (2, 1), (2, 2), (2, 3), (3, 3), (3, 2), (1, 3), (3, 16)] } else { vec![(1, 1), (1, 2), (2, 2), (2, 3), (3, 2)] };
+    let pks: Vec<(usize, usize)> = if thorough { vec![(1, 1), (1, 2), (2, 1), (2, 2), (2, 3), (3, 3), (3, 2), (1, 3), (3, 16)] } else { vec![(1, 1), (1, 2), (2, 1), (2, 2), (2, 3), (3, 2)] };
     let mut cfgs = vec![];
     for init in &initials {
         for (par, k) in &pks {
@@ -568,9 +601,16 @@ pub fn run(prop: &str) {
                 if (predicate || pool) && !thorough && (init.len() == 3 || *par == 3) {
                     continue;
                 }
-                cfgs.push(QCfg { predicate, pool, n_peers, initial: init.clone(), parallelism: *par, num_results: *k, max_report: if predicate || pool { max_report.min(if thorough { 2 } else { 1 }) } else { max_report } });
+                cfgs.push(QCfg { predicate, pool, n_peers, initial: init.clone(), parallelism: *par, num_results: *k, max_report: if predicate || pool { max_report.min(if thorough { 2 } else { 1 }) } else { max_report }, half_steps: thorough, deep: false });
             }
         }
+    }
+    // deep and narrow: all candidates known from the start, answers report nothing new, time moves
+    // in halves of the peer timeout (staggered deadlines), parallelism above the result count
+    for (predicate, par, k) in [(true, 3usize, 1usize), (false, 3, 1)] {
+        // (the constructor keeps only the k closest initial peers: the others are learnt from the
+        // farthest peer's answer, which names everybody)
+        cfgs.push(QCfg { predicate, pool: false, n_peers: 7, initial: vec![6], parallelism: par, num_results: k, max_report: 0, half_steps: true, deep: true });
     }
     let budget = mc::budget(thorough, 30.0, 0.6);
     let depth: usize = std::env::var("VERIF_DEPTH").ok().and_then(|v| v.parse().ok()).unwrap_or(if thorough { 40 } else { 6 });
@@ -590,7 +630,7 @@ pub fn run(prop: &str) {
             caps.push("wall budget exhausted before all configurations".to_string());
             break;
         }
-        let limits = Limits { max_budget: 0, max_depth: depth, max_states: 5_000_000, wall_s: remaining.min(per_cfg * 3.0) };
+        let limits = Limits { max_budget: 0, max_depth: if cfg.deep && !thorough { 15 } else { depth }, max_states: 5_000_000, wall_s: remaining.min(per_cfg * 3.0) };
         let mut vio = vec![];
         let mut samples = vec![];
         let stats = mc::explore(&limits, |h: &[QEv]| run_query(cfg, h), |v, _| vio.push(v), |h, _| samples.push(format!("{:?}", h)));
